@@ -507,6 +507,31 @@ def call(dom, name, args, kw):
                     break
             order.insert(pos, i)
         return out(dom, ND((len(order),), order))
+    if name == "np.unique":
+        # sorted distinct values (+ index of the first occurrence); ties decided by forking on equality
+        if nd.ndim != 1:
+            raise Unsupported("np.unique of a matrix")
+        order = []
+        for i in range(len(nd.flat)):
+            pos = len(order)
+            for k2, j in enumerate(order):
+                if truth(dom, scmp(dom, "Lt", nd.flat[i], nd.flat[j])):
+                    pos = k2
+                    break
+            order.insert(pos, i)
+        vals, idxs = [], []
+        for i in order:
+            if vals and truth(dom, scmp(dom, "Eq", nd.flat[i], vals[-1])):
+                idxs[-1] = min(idxs[-1], i)
+                continue
+            vals.append(nd.flat[i])
+            idxs.append(i)
+        res = [out(dom, ND((len(vals),), vals))]
+        if kw.get("return_index"):
+            res.append(out(dom, ND((len(idxs),), idxs)))
+        if kw.get("return_inverse") or kw.get("return_counts"):
+            raise Unsupported("np.unique(return_inverse/return_counts)")
+        return tuple(res) if len(res) > 1 else res[0]
     if name == "np.linalg.norm":
         ordv = args[1] if len(args) > 1 else kw.get("ord")
         if ordv is None:
